@@ -320,8 +320,31 @@ def check_s5(chk, m, K):
     names = {E.get("FIBRE_STATE_YIELDED"): "YIELDED", E.get("FIBRE_STATE_WAITING"): "WAITING",
              E.get("FIBRE_STATE_EXITED"): "EXITED", E.get("FIBRE_STATE_FAILED"): "FAILED"}
     seen = set()
+    # the outcome evaluated per state value (the handling may be written as a switch, an if-chain or a constant table indexed by
+    # the state): the path taken when kernel.state holds that value
+    state_ld = set(x for p in ps for c, t, i in p.conds for x in paths.subexprs(c) if x[0] == "ld" and x[1] == K.kptr("state"))
+    by_eval = {}
+    for sv, sname in names.items():
+        if sv is None:
+            continue
+        feas = []
+        try:
+            for p in ps:
+                if paths.is_assert_fail_path(p):
+                    continue
+                env = paths.LazyEnv(m, {x: sv for x in state_ld})
+                if all(paths.cond_holds(cd, env) for cd in p.conds):
+                    feas.append(p)
+        except NoValue:
+            feas = None
+        if feas is not None and len(feas) == 1:
+            by_eval[id(feas[0])] = by_eval.get(id(feas[0]), []) + [sv]
     for p in ps:
         st = None
+        if by_eval:
+            for sv in by_eval.get(id(p), []):
+                _s5_case(chk, fn, K, p, names[sv], seen)
+            continue
         for c, taken, inst in p.conds:
             cc = strip_casts(c)
             if cc[0] == "ld" and cc[1] == K.kptr("state") and not isinstance(taken, bool):
@@ -331,12 +354,17 @@ def check_s5(chk, m, K):
                 st = cc[3][2]
         if st not in names:
             continue
-        seen.add(names[st])
+        _s5_case(chk, fn, K, p, names[st], seen)
+    chk.expect("S5", "state cases of update_current_state", len(seen), 4)
+
+
+def _s5_case(chk, fn, K, p, s, seen):
+    if True:
+        seen.add(s)
         requeue = [e for k, e in fib.calls_on(p) if e.callee == "fibre_run" and e.args and strip_casts(e.args[0])[0] == "ld"
                    and strip_casts(e.args[0])[1] == K.kptr("current")]
         reset = [e for e in p.events if e.kind == "store" and e.val[0] == "c" and e.val[2] == 0 and ptr_parts(e.ptr)[1] == K.fibre["priv"][0]
                  and ptr_parts(e.ptr)[0][0] == "ld" and ptr_parts(e.ptr)[0][1] == K.kptr("current")]
-        s = names[st]
         if s == "YIELDED":
             ok = len(requeue) == 1 and not reset
             why = "a fibre that yielded is made runnable again (fibre_run(current)) and keeps its resume point"
@@ -348,7 +376,6 @@ def check_s5(chk, m, K):
             why = "an exited/failed fibre is not re-queued and restarts from its beginning (priv := 0)"
         chk.ob("S5.state-handling", "update_current_state state=%s" % s, ok,
                "%s; observed %d re-queue(s), %d reset(s)" % (why, len(requeue), len(reset)), fn.loc, fn.name)
-    chk.expect("S5", "state cases of update_current_state", len(seen), 4)
 
 
 def check_s7(chk, m, K):
